@@ -793,6 +793,90 @@ def _coincidence() -> list[dict]:
     return cases
 
 
+# ---- suspended listeners ---------------------------------------------------------------------
+
+D_LABELS = ['d:CONNECTING', 'd:CONNECTED', 'd:INIT', 'd:CLOSING', 'd:CLOSED']
+A_LABELS = ['a:CONNECTED', 'a:INIT', 'a:CLOSING', 'a:CLOSED']
+W_LABELS = ['w:CLOSING', 'w:CLOSED']
+M_LABELS = ['m:CannotConnect', 'm:GetPeerAddress']
+HOLD_SETS = ([[l] for l in D_LABELS + A_LABELS + M_LABELS]
+             + [['d:CLOSING', 'w:CLOSING'], ['d:CLOSED', 'w:CLOSING'], ['d:CLOSED', 'w:CLOSED'], ['d:CLOSING', 'd:CLOSED'],
+                ['d:CONNECTED', 'd:CLOSING'], ['d:INIT', 'd:CLOSING'], ['d:INIT', 'a:INIT'], ['d:CONNECTED', 'a:INIT'],
+                ['a:INIT', 'd:CLOSING'], ['a:INIT', 'a:CLOSING'], ['a:CONNECTED', 'm:CannotConnect'],
+                ['d:CONNECTING', 'd:CLOSING'], ['a:CLOSING', 'a:CLOSED'], ['d:CONNECTED', 'd:INIT']])
+ENV_OPS = [['connectOk', 1], ['connectOk', 0], ['connectRefused'], ['connectTimeout'], ['pierce'], ['cannotConnect'],
+           ['indirectTimeout'], ['cancelRequest']]
+LATE_HELD = [['drain'], ['pierce'], ['cannotConnect'], ['connectOk', 1], ['indirectTimeout'], ['cancelRequest'], ['drain']]
+
+
+def _held_grid(depth: int, stride: int = 1, offset: int = 0) -> list[dict]:
+    """Every sequence of `depth` distinct events — the completions of the two attempts, cancellation of the request,
+    and `the listeners of notification L return` for each held L — in both modes, for each set of notifications whose
+    listeners suspend: so each competing event is delivered while each listener invocation along the connect paths is
+    suspended (events that are not enabled at their turn are skipped by the harness).  Then every listener returns
+    (`drain`), late events, `drain`."""
+    import itertools
+    cases = []
+    k = 0
+    for mode in ('fallback', 'race'):
+        for hs in HOLD_SETS:
+            lookups = (0, 1) if ('d:CONNECTING' in hs or 'm:GetPeerAddress' in hs) else (0,)
+            for lookup in lookups:
+                alphabet = ENV_OPS + [['release', l] for l in hs]
+                pre_variants = [[]]
+                if lookup:
+                    pre_variants = [[['addrReply', 'valid']]]
+                    if 'm:GetPeerAddress' in hs:
+                        pre_variants.append([['addrReply', 'noPort']])
+                for pre in pre_variants:
+                    for seq in itertools.permutations(range(len(alphabet)), depth):
+                        k += 1
+                        if (k + offset) % stride:
+                            continue
+                        ops = [list(alphabet[x]) for x in seq]
+                        cases.append({'kind': f'held:{mode}:{"+".join(hs)}', 'mode': mode, 'lookup': lookup, 'srvFail': 0,
+                                      'typ': 'PFD'[k % 3], 'prefer': k % 2, 'ports': [2234, 2235] if k % 2 else [2234, 0],
+                                      'hold': list(hs), 'ops': [list(o) for o in pre] + ops + [list(o) for o in LATE_HELD]})
+    return cases
+
+
+def _gen_random_held(rng: random.Random) -> dict:
+    mode = rng.choice(['fallback', 'race'])
+    lookup = rng.random() < 0.3
+    clear, obfs = rng.choice([(2234, 0), (0, 2235), (2234, 2235)])
+    labels = D_LABELS + A_LABELS + W_LABELS + M_LABELS
+    hs = rng.sample(labels, rng.choice([1, 1, 2, 2, 3, 4, 6]))
+    pool = ([['addrReply', 'valid']] * 3 + [['addrReply', 'noAddr'], ['addrReply', 'noPort']] + [['connectOk', 1]] * 4
+            + [['connectOk', 0], ['connectRefused'], ['connectTimeout']] * 2 + [['pierce']] * 4 + [['cannotConnect']] * 2
+            + [['indirectTimeout']] * 2 + [['cancelRequest']] * 3 + [['release', l] for l in hs] * 3
+            + [['hold', rng.choice(labels)], ['unhold', rng.choice(hs)], ['drain']])
+    ops = [list(rng.choice(pool)) for _ in range(rng.randint(3, 12))]
+    if lookup and rng.random() < 0.7:
+        ops.insert(0, ['addrReply', 'valid'])
+    return {'kind': 'held:random', 'mode': mode, 'lookup': int(lookup), 'srvFail': 0, 'typ': rng.choice('PFD'),
+            'prefer': int(rng.random() < 0.5), 'ports': [clear, obfs], 'hold': hs, 'ops': ops + [['drain']]}
+
+
+def _coincidence_held() -> list[dict]:
+    """Two completions inside one settle while a listener is suspended (monitor only)."""
+    cases = []
+    for mode in ('fallback', 'race'):
+        pre = [['connectRefused']] if mode == 'fallback' else []
+        for hs in (['a:INIT'], ['a:CONNECTED'], ['d:INIT'], ['d:CONNECTED'], ['d:CLOSING'], ['w:CLOSING', 'd:CLOSING']):
+            first = [['pierce']] if hs[0].startswith('a:') else ([['connectOk', 1]] if mode == 'race' else None)
+            if first is None:
+                continue
+            for a, b in ((['cancelRequest'], ['release', hs[0]]), (['release', hs[0]], ['cancelRequest']),
+                         (['release', hs[0]], ['cannotConnect']), (['release', hs[0]], ['indirectTimeout']),
+                         (['indirectTimeout'], ['release', hs[0]]), (['pierce'], ['cancelRequest']),
+                         (['pierce'], ['release', hs[0]])):
+                for gap in range(4):
+                    cases.append({'kind': f'coincidence:held:{mode}:{a[0]}+{b[0]}:gap{gap}', 'mode': mode, 'lookup': 0,
+                                  'srvFail': 0, 'typ': 'P', 'prefer': 0, 'ports': [2234, 0], 'hold': list(hs),
+                                  'ops': pre + first + [['pair', a, b, gap]] + [list(o) for o in LATE_HELD]})
+    return cases
+
+
 def _gen_random(rng: random.Random) -> dict:
     mode = rng.choice(['fallback', 'race'])
     lookup = rng.random() < 0.5
@@ -804,6 +888,27 @@ def _gen_random(rng: random.Random) -> dict:
     ops = [list(rng.choice(pool)) for _ in range(rng.randint(3, 12))]
     return {'kind': 'random', 'mode': mode, 'lookup': int(lookup), 'srvFail': int(srv_fail), 'typ': rng.choice('PFD'),
             'prefer': int(rng.random() < 0.5), 'ports': [clear, obfs], 'ops': ops}
+
+
+# Suspension points that exist only because an application listener suspends: the innermost frame of the anchored code
+# is then the one that emitted the event.
+LISTENER_SITES = frozenset([
+    'network.py:on_state_changed>emit', 'network.py:_make_direct_connection>emit', 'network.py:on_peer_accepted>emit',
+    'network.py:on_message_received>emit',
+])
+
+
+def site_breaks(cases: list, impl: list) -> list:
+    """One Disagreement per await site that the models do not name (first case that shows it)."""
+    out, seen = [], set()
+    for c, io in zip(cases, impl):
+        known = _c10.KNOWN_SITES | LISTENER_SITES if ('ops' in c and _has_holds(c)) else _c10.KNOWN_SITES
+        for site in io.get('sites', []):
+            if site not in known and site not in seen:
+                seen.add(site)
+                out.append(Disagreement(c, {'await_site': site}, {'known_sites': sorted(known)},
+                                        'granularity: the anchored code suspends at a point the model does not name'))
+    return out
 
 
 def _eval_case(case):
@@ -849,6 +954,29 @@ CO_WITNESSES = [
      'prefer': 0, 'ports': [2234, 0], 'ops': [['pair', ['connectOk', 1], ['pierce'], 0]]},
 ]
 
+HELD_WITNESSES = [
+    # the class of seeded/C11-f: the other attempt wins / the request is cancelled while listeners are being told CONNECTED
+    {'kind': 'held:witness:race-pierce-while-told-connected', 'mode': 'race', 'lookup': 0, 'srvFail': 0, 'typ': 'P',
+     'prefer': 0, 'ports': [2234, 0], 'hold': ['d:CONNECTED'], 'ops': [['connectOk', 1], ['pierce'], ['drain']]},
+    {'kind': 'held:witness:fallback-cancelled-while-told-connected', 'mode': 'fallback', 'lookup': 0, 'srvFail': 0,
+     'typ': 'P', 'prefer': 0, 'ports': [2234, 0], 'hold': ['d:CONNECTED'], 'ops': [['connectOk', 1], ['cancelRequest'], ['drain']]},
+    # fixes/C11-listener-windows: … while listeners are being told PeerInitializedEvent (direct / pierced connection)
+    {'kind': 'held:witness:race-pierce-while-told-initialized', 'mode': 'race', 'lookup': 0, 'srvFail': 0, 'typ': 'P',
+     'prefer': 0, 'ports': [2234, 0], 'hold': ['d:INIT'], 'ops': [['connectOk', 1], ['pierce'], ['drain']]},
+    {'kind': 'held:witness:timeout-while-pierce-announced', 'mode': 'fallback', 'lookup': 0, 'srvFail': 0, 'typ': 'P',
+     'prefer': 0, 'ports': [2234, 0], 'hold': ['a:INIT'],
+     'ops': [['connectRefused'], ['pierce'], ['indirectTimeout'], ['drain']]},
+    {'kind': 'held:witness:race-direct-wins-while-pierce-announced', 'mode': 'race', 'lookup': 0, 'srvFail': 0, 'typ': 'F',
+     'prefer': 0, 'ports': [2234, 0], 'hold': ['a:INIT'], 'ops': [['pierce'], ['connectOk', 1], ['drain']]},
+    # fixes/C11-disconnect-cancel-safe: cancelled while listeners are being told CLOSING
+    {'kind': 'held:witness:race-pierce-while-failed-direct-closing', 'mode': 'race', 'lookup': 0, 'srvFail': 0, 'typ': 'P',
+     'prefer': 0, 'ports': [2234, 0], 'hold': ['d:CLOSING'], 'ops': [['connectRefused'], ['pierce'], ['drain']]},
+    # fixes/C11-race-cancel-orphan: cancelled while the loser is cleaned up
+    {'kind': 'held:witness:race-cancelled-while-gathering-loser', 'mode': 'race', 'lookup': 0, 'srvFail': 0, 'typ': 'P',
+     'prefer': 0, 'ports': [2234, 0], 'hold': ['d:CONNECTED', 'd:CLOSING'],
+     'ops': [['connectOk', 1], ['pierce'], ['cancelRequest'], ['drain']]},
+]
+
 
 class C11(Property):
     id = 'C11'
@@ -878,10 +1006,17 @@ class C11(Property):
     def correspondence(self, seed, tier, model_ok, widen=1):
         res = KResult()
         rng = random.Random(f'C11-{seed}')
-        n = (6000 if tier == 'quick' else 120000) * widen
+        quick = tier == 'quick'
+        n = (6000 if quick else 120000) * widen
         cases = list(WITNESSES) + _grid() + [_gen_random(rng) for _ in range(n)]
+        # suspended listeners: depth-2 sequences in full, depth 3 sampled (quick: a VERIF_SEED-dependent 1/12th) / in full
+        cases += list(HELD_WITNESSES) + _held_grid(2)
+        cases += _held_grid(3, stride=max(1, 12 // widen), offset=rng.randrange(12)) if quick else _held_grid(3)
+        if not quick:
+            cases += _held_grid(4, stride=9, offset=rng.randrange(9))
+        cases += [_gen_random_held(rng) for _ in range((4000 if quick else 60000) * widen)]
         n_model = len(cases)
-        cases += CO_WITNESSES + _coincidence()          # monitor only
+        cases += CO_WITNESSES + _coincidence() + _coincidence_held()          # monitor only
         back = [{'kind': c['kind'], 'c10case': c} for c in _c10._grid()
                 if c['kind'].startswith('back') or (c['kind'].startswith('direct') and any(
                     o[0] == 'at' and o[2] == 'cancelAttempt' for o in c['ops']))]
@@ -894,11 +1029,20 @@ class C11(Property):
         if model_ok:
             lines, spans = [], []
             for c, io in zip(cases[:n_model], impl):
-                ls = _model_lines(c, io['executed'])
-                spans.append((len(lines), len(ls)))
-                lines += ls
+                groups = _model_groups(c, io)
+                spans.append((len(lines), [len(g) for g in groups]))
+                for g in groups:
+                    lines += g
             out = common.run_driver(self.driver_file, lines + sel_lines)
-            model = [out[a:a + k] for a, k in spans]
+            model = []
+            for a, sizes in spans:
+                per, pos = [], a
+                for k in sizes:
+                    grp = out[pos:pos + k]
+                    pos += k
+                    bad = next((x for x in grp if x in ('rejected', 'bad-op')), None)
+                    per.append(bad if bad is not None else grp[-1])
+                model.append(per)
             sel_out = out[len(lines):]
             for l, o in zip(sel_lines, sel_out):
                 _, p, a, b = l.split()
@@ -908,7 +1052,7 @@ class C11(Property):
                     res.disagreements.append(Disagreement({'selectPort': l}, f'{ep} {int(eo)}', o, 'select_port table'))
         else:
             res.model_available = False
-        res.disagreements += _c10.site_breaks(cases + back, impl)
+        res.disagreements += site_breaks(cases + back, impl)
         res.count('await-sites-seen', len({x for io in impl for x in io.get('sites', [])}))
         for i, c in enumerate(cases):
             io = impl[i]
@@ -920,12 +1064,24 @@ class C11(Property):
                 res.count('op:' + op[0])
                 if op[0] == 'pair':
                     res.count(f'pair:{op[1][0]}+{op[2][0]}')
+            for n_op, lg in enumerate(io.get('logs', [])):
+                for kind, lab, _pr in lg:
+                    if kind == 'park':
+                        res.count('listener-suspended-at:' + lab)
+                    elif kind == 'cancel':
+                        res.count('listener-interrupted-by-cancellation-at:' + lab)
+                if n_op and io['facts'][n_op - 1].get('held'):
+                    op = io['executed'][n_op - 1]
+                    if op[0] not in ('release', 'drain', 'hold', 'unhold'):
+                        for lab in io['facts'][n_op - 1]['held']:
+                            res.count(f'delivered-while-suspended:{lab}<-{op[0]}')
             finals = [f['res'] for f in io['facts']]
             res.count('result:' + finals[-1])
             res.count(f"ports:clear={int(bool(c['ports'][0]))},obfs={int(bool(c['ports'][1]))},prefer={c['prefer']}")
             done_at = next((j for j, r in enumerate(finals) if r != 'pending'), None)
             if (done_at is not None and len(finals) > done_at + 1) or 'ctp=1' in io['lines'][-1]:
-                res.nontrivial_keys.add(common.sha([c['mode'], c['lookup'], c['srvFail'], io['executed']]))
+                res.nontrivial_keys.add(common.sha([c['mode'], c['lookup'], c['srvFail'], sorted(c.get('hold', [])),
+                                                    io['executed']]))
             if model is not None and i < n_model:
                 res.traces_validated += 1
                 if model[i] != io['lines']:
@@ -935,9 +1091,10 @@ class C11(Property):
                     cc['ops'] = io['executed']
                     res.disagreements.append(Disagreement(
                         cc, io['lines'][k] if k < len(io['lines']) else None, model[i][k] if k < len(model[i]) else None,
-                        f'after op #{k - 1}: {io["executed"][k - 1] if 0 < k <= len(io["executed"]) else "new"}'))
+                        f'after op #{k - 1}: {io["executed"][k - 1] if 0 < k <= len(io["executed"]) else "new"}'
+                        f' (model ops: {io["mlines"][k] if k < len(io["mlines"]) else None})'))
             res.violations += _monitor(c, io)
-            if len(res.samples) < 3 and c['kind'].startswith('witness'):
+            if len(res.samples) < 3 and 'witness' in c['kind']:
                 res.samples.append({'case': c, 'impl': io['lines']})
         for j, c in enumerate(back):
             io = impl[len(cases) + j]
